@@ -239,7 +239,7 @@ def private_only_policy(fx):
     return pol
 
 
-def inline_region(fx, root_key, depth=4, policy=None):
+def inline_region(fx, root_key, depth=4, policy=None, desugar=True):
     """Build a synthetic function (same JSON shape) in which calls to local functions selected by
     `policy` are replaced by the callee's CFG.  Recursion is cut (the call stays a call)."""
     policy = policy or default_inline_policy(fx)
@@ -281,6 +281,9 @@ def inline_region(fx, root_key, depth=4, policy=None):
                 continue
             if t["k"] != "call" or d <= 0:
                 continue
+            if desugar and t.get("target") is not None and callee_name(t) in _DESUGAR and \
+                    _desugar(fn, bi, nb, t, loff, boff, stack, d, inst):
+                continue
             ck = t.get("resolved_key") or t.get("callee_key")
             if ck is None or ck not in fx.fns or ck in stack:
                 continue
@@ -310,9 +313,221 @@ def inline_region(fx, root_key, depth=4, policy=None):
                           "callee_key": ck}
         return boff
 
+    # ---- internal iteration and Option / Result combinators taking a closure (or a local fn item) are rewritten into the
+    # ---- control flow they stand for, with the closure body inlined: `it.for_each(f)` becomes the loop `while let
+    # ---- Some(x) = it.next() { f(x) }`, `opt.map(f)` a match on `opt`, ...  Rules about loops, guards and dominance then see
+    # ---- one shape for both spellings.
+    def _closure_of(fn, op):
+        """(callee fn, env local or None) for a closure / fn-item operand of the un-shifted function `fn`."""
+        if "const" in op:
+            k = op["const"].get("fn_key")
+            g = fx.fns.get(k) if k else None
+            if g is not None and g["kind"] in ("Fn", "AssocFn") and policy(g):
+                return g, None
+            return None
+        pl = op.get("move") or op.get("copy")
+        if pl is None or pl["p"]:
+            return None
+        defs = []
+        for blk in fn["blocks"]:
+            for st in blk["stmts"]:
+                if st["k"] == "assign" and st["dst"]["l"] == pl["l"] and not st["dst"]["p"]:
+                    defs.append(st)
+            tt = blk["term"]
+            if tt and tt["k"] == "call" and tt["dst"]["l"] == pl["l"] and not tt["dst"]["p"]:
+                defs.append(None)
+        if len(defs) == 1 and defs[0] is not None and defs[0]["rv"].get("agg") == "closure":
+            g = fx.fns.get(defs[0]["rv"]["closure_key"])
+            if g is not None:
+                return g, pl["l"]
+        return None
+
+    def _desugar(fn, bi, nb, t, loff, boff, stack, d, inst):
+        name = callee_name(t)
+        kind = _DESUGAR[name]
+        if len(t["args"]) != 2:
+            return False
+        co = _closure_of(fn, fn["blocks"][bi]["term"]["args"][1])
+        if co is None:
+            return False
+        callee, env = co
+        if callee["key"] in stack:
+            return False
+        want_args = 2 if env is not None else 1
+        if callee["arg_count"] != want_args:
+            return False
+        at = t["at"]
+        origin = {"origin": fn["path"], "origin_key": fn["key"], "origin_bb": bi, "inst": inst, "ret_local": loff, "cleanup": False,
+                  "synthetic": "desugar"}
+
+        def local(ty, name=None):
+            new["locals"].append({"ty": ty, "name": name})
+            return len(new["locals"]) - 1
+
+        def block():
+            new["blocks"].append(dict(origin, stmts=[], term=None))
+            return len(new["blocks"]) - 1
+
+        def assign(bidx_or_blk, dst, rv, syn="desugar"):
+            blk = new["blocks"][bidx_or_blk] if isinstance(bidx_or_blk, int) else bidx_or_blk
+            blk["stmts"].append({"k": "assign", "dst": dst if isinstance(dst, dict) else {"l": dst, "p": []}, "rv": rv, "at": at, "exp": None,
+                                 "synthetic": syn})
+
+        def goto(bidx, target):
+            new["blocks"][bidx]["term"] = {"k": "goto", "target": target, "at": at, "exp": None, "synthetic": "desugar"}
+
+        def use(op):
+            return {"k": "use", "op": op}
+
+        def mv(l, p=None):
+            return {"move": {"l": l, "p": p or []}}
+
+        def variant_field(l, variant, vi, of):
+            return {"l": l, "p": [{"d": variant, "vi": vi}, {"f": "0", "i": 0, "of": of + "::" + variant, "ty": "_"}]}
+
+        def adt(adt_name, variant, ops):
+            return {"k": "agg", "agg": "adt", "adt": adt_name, "variant": variant, "fields": ["0"] if ops else [], "ops": ops}
+
+        def const_bool(v):
+            return use({"const": {"ty": "bool", "int": 1 if v else 0, "repr": "true" if v else "false"}})
+
+        unit = use({"const": {"ty": "()", "repr": "()"}})
+        OPT, RES = "std::option::Option", "std::result::Result"
+        OPT_V, RES_V = [[0, "None"], [1, "Some"]], [[0, "Ok"], [1, "Err"]]
+        arg_ty = (t.get("arg_tys") or ["_"])[0]
+        dst, target = t["dst"], t["target"]
+        # callee locals
+        cl_off = len(new["locals"])
+        for l in callee["locals"]:
+            new["locals"].append(dict(l))
+        cinst = inst + "/" + callee["path"].split("::")[-1] + "@" + str(boff + bi)
+        p_item = cl_off + (2 if env is not None else 1)
+
+        def bind_env(bidx):
+            if env is None:
+                return
+            ety = callee["locals"][1]["ty"]
+            src = {"l": env + loff, "p": []}
+            if ety.startswith("&mut "):
+                rv = {"k": "ref", "mut": True, "place": src}
+            elif ety.startswith("&"):
+                rv = {"k": "ref", "mut": False, "place": src}
+            else:
+                rv = use({"move": src})
+            assign(bidx, cl_off + 1, rv, "arg")
+
+        def emit_callee(ret_dst, ret_target):
+            cb = emit(callee, cl_off, stack | {callee["key"]}, d - 1, ret_dst=ret_dst, ret_target=ret_target, inst=cinst)
+            new["inlined"].append({"callee": callee["path"], "at_block": boff + bi, "inst": cinst, "site": at, "desugared": name})
+            return cb
+
+        def switch(bidx_or_blk, l, ty, arms, otherwise):
+            blk = new["blocks"][bidx_or_blk] if isinstance(bidx_or_blk, int) else bidx_or_blk
+            blk["term"] = {"k": "switch", "discr": mv(l), "discr_ty": ty, "arms": arms, "otherwise": otherwise, "at": at, "exp": None,
+                           "synthetic": "desugar"}
+
+        if kind in ("for_each", "any", "all", "find", "try_for_each"):
+            it = local(arg_ty)
+            assign(nb, it, use(t["args"][0]))
+            r = local("&mut " + arg_ty)
+            tmp = local(OPT + "<_>")
+            dl = local("isize")
+            H, S, Bd, A, X = block(), block(), block(), block(), block()
+            nb["term"] = {"k": "goto", "target": H, "at": at, "exp": None, "synthetic": "desugared-call", "callee": t.get("callee")}
+            assign(H, r, {"k": "ref", "mut": True, "place": {"l": it, "p": []}})
+            nt = {k2: v for k2, v in t.items()}
+            nt.update({"callee": "std::iter::Iterator::next", "callee_full": "<%s as std::iter::Iterator>::next" % arg_ty, "callee_crate": "core",
+                       "generics": [arg_ty], "trait": "std::iter::Iterator", "resolved": None, "resolved_full": None, "resolved_key": None,
+                       "callee_key": None, "resolved_kind": None, "args": [mv(r)], "arg_tys": ["&mut " + arg_ty], "dst": {"l": tmp, "p": []},
+                       "target": S, "unwind": None, "synthetic": "desugar", "desugared_from": name})
+            new["blocks"][H]["term"] = nt
+            assign(S, dl, {"k": "discr", "place": {"l": tmp, "p": []}, "pty": OPT + "<_>", "adt": OPT, "variants": OPT_V})
+            switch(S, dl, "isize", [[1, Bd]], X)
+            bind_env(Bd)
+            rty = callee["locals"][0]["ty"]
+            if kind == "find":
+                el = local("_")
+                assign(Bd, el, use({"move": variant_field(tmp, "Some", 1, OPT)}))
+                assign(Bd, p_item, {"k": "ref", "mut": False, "place": {"l": el, "p": []}}, "arg")
+            else:
+                assign(Bd, p_item, use({"move": variant_field(tmp, "Some", 1, OPT)}), "arg")
+            rr = local(rty)
+            cb = emit_callee({"l": rr, "p": []}, A)
+            goto(Bd, cb)
+            if kind == "for_each":
+                goto(A, H)
+                assign(X, dst, unit)
+                goto(X, target)
+            elif kind in ("any", "find"):
+                T = block()
+                switch(A, rr, "bool", [[0, H]], T)
+                if kind == "any":
+                    assign(T, dst, const_bool(True))
+                    assign(X, dst, const_bool(False))
+                else:
+                    assign(T, dst, adt(OPT, "Some", [mv(el)]))
+                    assign(X, dst, adt(OPT, "None", []))
+                goto(T, target)
+                goto(X, target)
+            elif kind == "all":
+                F = block()
+                switch(A, rr, "bool", [[0, F]], H)
+                assign(F, dst, const_bool(False))
+                assign(X, dst, const_bool(True))
+                goto(F, target)
+                goto(X, target)
+            else:   # try_for_each over Result<(), E> / Option<()>
+                is_res = rty.startswith(RES)
+                d2 = local("isize")
+                T = block()
+                assign(A, d2, {"k": "discr", "place": {"l": rr, "p": []}, "pty": rty, "adt": RES if is_res else OPT, "variants": RES_V if is_res else OPT_V})
+                switch(A, d2, "isize", [[0 if is_res else 1, H]], T)
+                assign(T, dst, use(mv(rr)))
+                goto(T, target)
+                u = local("()")
+                assign(X, u, unit)
+                assign(X, dst, adt(RES, "Ok", [mv(u)]) if is_res else adt(OPT, "Some", [mv(u)]))
+                goto(X, target)
+            return True
+        # ---- Option / Result combinators: the closure runs at most once
+        is_res = name.startswith("std::result::")
+        o = local(arg_ty)
+        assign(nb, o, use(t["args"][0]))
+        dl = local("isize")
+        assign(nb, dl, {"k": "discr", "place": {"l": o, "p": []}, "pty": arg_ty, "adt": RES if is_res else OPT, "variants": RES_V if is_res else OPT_V})
+        Bd, X = block(), block()
+        switch(nb, dl, "isize", [[0 if is_res else 1, Bd]], X)
+        nb["term"]["synthetic"] = "desugared-call"
+        nb["term"]["callee"] = t.get("callee")
+        bind_env(Bd)
+        assign(Bd, p_item, use({"move": variant_field(o, "Ok" if is_res else "Some", 0 if is_res else 1, RES if is_res else OPT)}), "arg")
+        if kind == "and_then":
+            cb = emit_callee(dst, target)
+        else:
+            rr = local(callee["locals"][0]["ty"])
+            A = block()
+            cb = emit_callee({"l": rr, "p": []}, A)
+            assign(A, dst, adt(RES if is_res else OPT, "Ok" if is_res else "Some", [mv(rr)]))
+            goto(A, target)
+        goto(Bd, cb)
+        if is_res:
+            assign(X, dst, adt(RES, "Err", [{"move": variant_field(o, "Err", 1, RES)}]))
+        else:
+            assign(X, dst, adt(OPT, "None", []))
+        goto(X, target)
+        return True
+
     emit(root, 0, {root_key}, depth)
     new["ret_locals"] = sorted(new.get("ret_locals", []))
     return new
+
+
+_DESUGAR = {
+    "std::iter::Iterator::for_each": "for_each", "std::iter::Iterator::any": "any", "std::iter::Iterator::all": "all",
+    "std::iter::Iterator::find": "find", "std::iter::Iterator::try_for_each": "try_for_each",
+    "std::option::Option::map": "map", "std::option::Option::and_then": "and_then",
+    "std::result::Result::map": "map", "std::result::Result::and_then": "and_then",
+}
 
 
 def region_body(fx, root_path, depth=4, policy=None):
